@@ -30,18 +30,20 @@ REAL = ["aiomysensors.Gateway.listen/send", "outgoing set handler", "sleep buffe
 STUB = ["event loop (SimLoop)", "transport (SimTransport)"]
 ASSUMPTIONS = ["reference model is the oracle"]
 REQUIRED_PROBES = ["overwrite_before_wake", "two_keys_one_node", "wake_of_other_node", "rebuffer_after_flush",
-                   "heartbeat_22_no_flush", "unbuffered_to_sleeping", "send_to_unknown_node", "sleeping_1x_restored"]
+                   "heartbeat_22_no_flush", "unbuffered_to_sleeping", "send_to_unknown_node", "sleeping_1x_restored",
+                   "version_report_while_parked"]
 ASPECTS = ("send", "writes.")
 
 SHORT = [
     ["send", [1, 0, 1, 0, 2, "a"], True], ["send", [1, 0, 1, 0, 2, "b"], True], ["send", [1, 1, 1, 0, 3, "c"], True],
     ["send", [2, 0, 1, 0, 2, "d"], True], ["send", [1, 0, 1, 0, 2, "e"], False],
     ["wake", 1], ["wake", 2], ["hb", 1], ["line", "1;0;1;0;2;7\n"], ["line", "1;255;0;0;17;{v}\n"],
+    ["line", "0;255;3;0;2;{v}\n"],
 ]
 
 
 def budget(tier):
-    return 4000 if tier == "quick" else 3 * G.short_history_count(len(SHORT), 4) + 100_000
+    return 12000 if tier == "quick" else 3 * G.short_history_count(len(SHORT), 4) + 100_000
 
 
 def wall(tier):
@@ -74,7 +76,7 @@ def gen(seed: int, i: int, tier: str) -> dict:
     if tier == "thorough" and i < 3 * nshort:
         proto = G.PROTOS_2X[i // nshort]
         short = G.short_history(i % nshort, SHORT, 4)
-    elif tier == "quick" and i < 1500:
+    elif tier == "quick" and i < 4000:
         proto = rng.choice(G.PROTOS_2X)
         short = G.short_history(rng.randrange(nshort), SHORT, 4)
     if short is not None:
@@ -122,8 +124,13 @@ def gen(seed: int, i: int, tier: str) -> dict:
             ops.append(["line", f"{n};255;0;0;17;{proto}\n"])
             for c in children:
                 ops.append(["line", f"{n};{c};0;0;3;c\n"])
-        elif r < 0.92:
+        elif r < 0.90:
             ops.append(["line", f"{n};{rng.choice(children)};1;0;{rng.choice(types)};{G.payload(rng)}\n"])
+        elif r < 0.96:
+            # the gateway reports its (unchanged) version again: reply to a version query, or the gateway
+            # node presenting itself after a restart - parked commands must survive that
+            ops.append(["line", rng.choice([f"0;255;3;0;2;{proto}\n", f"0;255;0;0;18;{proto}\n",
+                                            "0;255;3;0;14;Gateway startup complete.\n"])])
         else:
             ops.append(["relisten"])
     for n in nodes:
@@ -170,6 +177,8 @@ def run(scn):
                         res.probes["wake_of_other_node"] += 1
                 if t == 22 and proto == "2.2" and any(k[0] == n for k in model.parked):
                     res.probes["heartbeat_22_no_flush"] += 1
+                if parts[0] == "0" and (parts[4] == "2" or parts[2] == "0") and model.parked:
+                    res.probes["version_report_while_parked"] += 1
             st["prev_parked"] = set(model.parked)
 
     res = execute(scn, PROP, ASPECTS, on_step=on_step)
